@@ -13,7 +13,8 @@ OBLIGATIONS = ["disc_comp_inv_partial", "disc_comp_converges_partial", "guard_ch
                "agent_agreement_unguarded_refuted",
                "disc_replica_inv", "disc_replica_converges", "replica_guard_check_sound",
                "disc_comp2_inv_partial", "disc_comp2_converges_partial",
-               "callbacks_trace_computation_added_partial"]
+               "callbacks_trace_computation_added_partial",
+               "disc_comp3_inv", "disc_comp3_converges", "dir_tables_agree"]
 N_QUICK, N_THOROUGH = 400, 6000
 PARALLEL = 8
 SHARD = 100
